@@ -790,3 +790,40 @@ Definition from_dict (d : ddict) : option domain :=
 Definition json_roundtrip (base : Q) (d : domain) : option domain :=
   let j := to_dict base d in
   if json_serialisable j then from_dict j else None.
+
+(* ---- a whole configuration space ------------------------------------------------------------ *)
+(* HyperparameterRangesImpl.__init__: one range per (non-constant) hyperparameter, in the internal
+   key order; [ds] = the domains in that order, each with its entry of active_config_space *)
+Fixpoint space_ranges (eps : Q) (sc_log sc_rev : scaling) (ds : list (domain * option domain))
+  : option (list hprange) :=
+  match ds with
+  | [] => Some []
+  | (d, a) :: r =>
+      match range_of_domain eps sc_log sc_rev d a, space_ranges eps sc_log sc_rev r with
+      | Some h, Some hs => Some (h :: hs)
+      | _, _ => None
+      end
+  end.
+
+(* config_space_to_json_dict / config_space_from_json_dict: Domain entries go through
+   to_dict / from_dict, every other entry (a constant: int, float or str) is kept as it is;
+   keys are numbered by the harness *)
+Inductive cs_entry := EDom (d : domain) | EConst (c : val).
+Definition config_space := list (Z * cs_entry).
+Fixpoint cs_json_roundtrip (base : Q) (cs : config_space) : option config_space :=
+  match cs with
+  | [] => Some []
+  | (k, EConst c) :: r => option_map (cons (k, EConst c)) (cs_json_roundtrip base r)
+  | (k, EDom d) :: r =>
+      match json_roundtrip base d, cs_json_roundtrip base r with
+      | Some d', Some r' => Some ((k, EDom d') :: r')
+      | _, _ => None
+      end
+  end.
+(* the domains of a space (constants are filtered out by HyperparameterRanges) *)
+Fixpoint cs_domains (cs : config_space) : list (domain * option domain) :=
+  match cs with
+  | [] => []
+  | (_, EDom d) :: r => (d, None) :: cs_domains r
+  | (_, EConst _) :: r => cs_domains r
+  end.
